@@ -1,5 +1,5 @@
 import RoutinatorModel.Proofs.JsonBuilder
-import RoutinatorModel.Proofs.Prom
+import RoutinatorModel.Proofs.PromNeg
 import RoutinatorModel.Generated.Templates
 /-!
 # C22 — Status and metrics documents are always well-formed
@@ -84,6 +84,16 @@ def oldPromWitness : Entry :=
 
 example : entryOkB oldPromWitness = true ∧ isExpositionB (renderEntry oldPromWitness) = true ∧
     isExpositionB (renderEntryOld oldPromWitness) = false := by decide
+
+/-- The `/metrics` line the pinned tree writes for that TAL is not an exposition: its first
+line `routinator_ta_valid_vrps_total{name=""` neither is a comment nor ends with a value. -/
+theorem C22_old_metrics_invalid : entryOkB oldPromWitness = true ∧
+    ¬ IsExposition (renderEntryOld oldPromWitness) := by
+  refine ⟨by decide, ?_⟩
+  have h : renderEntryOld oldPromWitness =
+      (cp!"routinator_ta_valid_vrps_total{name=\"\"") ++ (0x0A :: cp!"\"} 1\n") := by decide
+  rw [h]
+  exact not_exposition_of_first_line (noLf_lit (by decide)) (by decide) (by decide)
 
 /-! ## The source is what the model says it is -/
 
